@@ -190,6 +190,16 @@ HasBad(m) ==
     [] m.k \in {"L", "U"} -> m.cnt.k # "num" \/ ~m.cnt.i \/ m.cnt.n < 0 \/ HasBad(m.c[1])
     [] OTHER -> \E j \in DOMAIN m.c : HasBad(m.c[j])
 
+\* a subcircuit may not lie inside a parallel block or another subcircuit, not even through a macro call
+\* (the parser enforces this for direct nesting; after macro expansion it is a property of the meaning)
+RECURSIVE SubNestBad(_, _)
+SubNestBad(m, inside) ==
+  CASE m.k = "U" -> inside \/ SubNestBad(m.c[1], TRUE)
+    [] m.k = "P" -> \E j \in DOMAIN m.c : SubNestBad(m.c[j], TRUE)
+    [] m.k = "S" -> \E j \in DOMAIN m.c : SubNestBad(m.c[j], inside)
+    [] m.k = "L" -> SubNestBad(m.c[1], inside)
+    [] OTHER -> FALSE
+
 \* ---------------------------------------------------------------- syntactic predicates on ASTs
 \* every statement reachable from s without going through macro calls, in pre-order
 RECURSIVE StmtsOf(_)
@@ -317,6 +327,7 @@ ValidAll(prog, ovr) ==
   /\ NoDupNames(prog)
   /\ LET t == RegTab(prog, Env(prog, ovr)) IN \A r \in DOMAIN t : t[r].ok
   /\ ~HasBad(Meaning(prog, ovr))
+  /\ ~SubNestBad(Meaning(prog, ovr), FALSE)
   /\ TypeOK(prog, ovr)
 
 \* ---------------------------------------------------------------- declarations (order-insensitive)
